@@ -379,6 +379,17 @@ def special_histories(chk: Check):
                 with tt.config_context(confidence_level=0.9):      # the same value as the enclosing context
                     body()
             run(f"nested-same-value:{body_name}", lambda: {"confidence_level": 0.9}, nested)
+        # every option passed EXPLICITLY (all different from the configuration in force) reaches the attribute of its own
+        # name, for the base class and for the wrapper class alike
+        explicit = dict(alternative="less", confidence_level=0.77, equal_var=True, use_t=False, alpha=0.03, ratio=2.5,
+                        power=0.66, effect_size=None, rel_effect_size=0.07, n_obs=(300, 400))
+        chk.case(("special-history", "explicit-options"))
+        chk.branch("special:explicit-options")
+        for label, m_ in (("Mean", tt.Mean("x", "c", **explicit)), ("RatioOfMeans", tt.RatioOfMeans("x", "y", "c", "d", **explicit))):
+            bad = {k: getattr(m_, k) for k, v in explicit.items() if getattr(m_, k) != v}
+            if bad:
+                chk.fail(f"{label}: an explicit argument did not win (attribute differs from the value passed)",
+                         dict(passed={k: explicit[k] for k in bad}, attributes=bad))
         # config_context used as a DECORATOR (contextlib's context managers are decorators too), on a function that calls
         # itself and on one that raises: every call enters a fresh context, the outermost exit restores
         before = snapshot()
